@@ -102,3 +102,63 @@ func HMacroGraph() {
 }
 
 func init() { vRegister("HMacroGraph", HMacroGraph) }
+
+// HMacroDag (C10): macro call graphs in which a macro calls up to TWO macros (diamonds,
+// the same macro called twice, cycles of any shape). Macros a, b, c are only defined
+// (the document pastes an independent macro), each with two PASTE slots whose targets
+// are symbolic over {a, b, c, none}. The project is rejected with the recursion error
+// exactly when some macro reaches itself; reaching a macro twice is not a cycle.
+func HMacroDag() {
+	names := []byte{'a', 'b', 'c'}
+	pick := func(id string) byte {
+		t := vByte(id)
+		vAssume(t == 'a' || t == 'b' || t == 'c' || t == '-')
+		return t
+	}
+	edges := map[byte][]byte{}
+	doc := []byte("JSIGHT 0.3\n")
+	for _, x := range names {
+		doc = append(doc, []byte("MACRO @"+string(x)+"\n(\n  GET /"+string(x)+"\n    200 any\n")...)
+		for s := 0; s < 2; s++ {
+			t := pick("t" + string(x) + string(rune('0'+s)))
+			if t != '-' {
+				edges[x] = append(edges[x], t)
+				doc = append(doc, ' ', ' ', ' ', ' ', 'P', 'A', 'S', 'T', 'E', ' ', '@', t, '\n')
+			}
+		}
+		doc = append(doc, ')', '\n')
+	}
+	doc = append(doc, []byte("MACRO @used\n(\n  404 any\n)\nGET /x\n  200 any\n  PASTE @used\n")...)
+	c := NewJApiCore(fs.NewFile("/vfs/root.jst", doc))
+	je := c.BuildCatalog()
+
+	cyclic := false
+	var dfs func(start, x byte, depth int)
+	dfs = func(start, x byte, depth int) {
+		if depth > 4 || cyclic {
+			return
+		}
+		for _, t := range edges[x] {
+			if t == start {
+				cyclic = true
+				return
+			}
+			dfs(start, t, depth+1)
+		}
+	}
+	for _, x := range names {
+		dfs(x, x, 0)
+	}
+	if cyclic {
+		vAssert(je != nil, "c10-macro-cycle-accepted")
+		vAssert(strings.Contains(je.Msg, jerr.RecursionIsProhibited), "c10-macro-cycle-wrong-error")
+		vReach("cycle")
+		vObserve("cycle")
+		return
+	}
+	vAssert(je == nil, "c10-acyclic-macro-graph-rejected")
+	vReach("dag-accepted")
+	vObserve("ok", len(c.directivesWithPastes))
+}
+
+func init() { vRegister("HMacroDag", HMacroDag) }
